@@ -187,9 +187,11 @@ fn gen_hierarchy(src: &mut Src) -> Vec<MCell> {
     let ncells = src.usize_in(1, 5);
     let mut cells = vec![];
     for c in 0..ncells {
-        let ns = src.usize_in(if c == 0 { 1 } else { 0 }, 3);
+        // now and then a cell that holds nothing at all (a placeholder): its instances flatten to nothing
+        let empty = c > 0 && c + 1 < ncells && src.prob(1, 5);
+        let ns = if empty { 0 } else { src.usize_in(if c == 0 { 1 } else { 0 }, 3) };
         let shapes = (0..ns).map(|_| (src.index(3), gen_shape(src))).collect();
-        let ni = if c == 0 { 0 } else { src.usize_in(1, 3) };
+        let ni = if c == 0 || empty { 0 } else { src.usize_in(1, 3) };
         let insts = (0..ni)
             .map(|_| {
                 // bias towards the previous cell so that depth builds up
